@@ -69,8 +69,8 @@ theorem checkBounds_isOk (F : NcFile) (P : Pre) (coord attr b : String) (hc : F.
   · simp only [hb, Bool.not_false, ↓reduceIte]
     exact ⟨_, rfl⟩
 
-theorem checkNodes_isOk (F : NcFile) (parent : String) (g : Geom) (b : String) :
-    IsOk (checkNodes patched F parent g b) := by
+theorem checkNodes_isOk (F : NcFile) (parent : String) (coord : Option String) (g : Geom) (b : String) :
+    IsOk (checkNodes patched F parent coord g b) := by
   unfold checkNodes
   simp only [patched, Bool.not_true, Bool.and_false, Bool.false_and, Bool.false_eq_true, ↓reduceIte]
   split
@@ -139,7 +139,7 @@ theorem boundsOf_isOk (F : NcFile) (P : Pre) (parent : String) (ncvar given : Op
         | none => simp [hgeom] at hg
         | some g =>
           simp only
-          obtain ⟨r, hr⟩ := checkNodes_isOk F parent g b
+          obtain ⟨r, hr⟩ := checkNodes_isOk F parent ncvar g b
           rw [hr]
           exact ⟨_, rfl⟩
       · rename_i hattr
@@ -292,7 +292,9 @@ theorem stageGridMapping_isOk (F : NcFile) (v : String) (vv : NcVar) (s : FSt) :
     apply foldlM_isOk _ (fun x => F.hasVar x.1 = true)
     · intro s x hx
       obtain ⟨xv, hxv⟩ := var_of_hasVar hx
-      simp only [hxv, getOr, bind, Except.bind]
+      have hg : patched.gmReport = true := rfl
+      unfold gmEntry
+      simp only [hxv, getOr, bind, Except.bind, hg, ↓reduceIte]
       split <;> exact ⟨_, rfl⟩
     · exact hall
 
@@ -371,7 +373,7 @@ theorem stageCellMeasures_isOk (F : NcFile) (P : Pre) (v : String) (D : List Str
   · rename_i cmz _
     obtain ⟨keep, ms, hk, hall⟩ := checked_patched_ok (checkCellMeasures patched F P v D)
       (fun x => ∃ n, x.2 = [n] ∧ msrOk F P D n)
-      (checkCellMeasures_single F P v D) ⟨(false, [⟨v, "cell_measures"⟩]), by simp [checkCellMeasures], rfl⟩ (parseX cmz)
+      (checkCellMeasures_single F P v D) ⟨(false, [msrMalformed v]), by simp [checkCellMeasures], rfl⟩ (parseX cmz)
     simp only [hk, bind, Except.bind]
     apply foldlM_isOk _ _ _ _ _ hall
     intro s x hx
@@ -414,7 +416,7 @@ theorem stageAncillary_isOk (F : NcFile) (P : Pre) (v : String) (D : List String
     obtain ⟨keep, ms, hk, hall⟩ := checked_patched_ok (checkAncillary patched F P v D)
       (fun n => ∃ nv, F.var? n = some nv ∧ (applyComp P.comp (rawDims nv)).all D.contains = true)
       (checkAncillary_single F P v D)
-      ⟨(false, [⟨v, "ancillary_variables"⟩]), by simp [checkAncillary], rfl⟩ (splitWS av)
+      ⟨(false, [ancMalformed v]), by simp [checkAncillary], rfl⟩ (splitWS av)
     simp only [hk, bind, Except.bind]
     apply foldlM_isOk _ _ _ _ _ hall
     intro s n hn
@@ -494,9 +496,9 @@ theorem ftStep_inv (F : NcFile) (cname : String) (acc : Terms × List Msg) (x : 
       exact h.snoc _ _ (fun m hm => by cases hm)
   · exact h.snoc _ _ (fun m hm => by cases hm)
 
-theorem ftBoundsStep_isOk (F : NcFile) (cname z : String) (cterms : Terms) (hc : TermsOk F cterms)
+theorem ftBoundsStep_isOk (F : NcFile) (cname bn z : String) (cterms : Terms) (hc : TermsOk F cterms)
     (acc : Terms × List Msg) (x : String × List String) :
-    IsOk (ftBoundsStep patched F cname z cterms acc x) := by
+    IsOk (ftBoundsStep patched F cname bn z cterms acc x) := by
   unfold ftBoundsStep
   simp only
   split
@@ -538,10 +540,11 @@ theorem checkFormulaTerms_ok (F : NcFile) (P : Pre) (coord : NcVar) (ft z : Stri
     · split
       · simp only [patched, ↓reduceIte]; exact ⟨_, rfl, hinv⟩
       · split
-        · rename_i bft _
-          obtain ⟨r2, hr2⟩ := foldlM_isOk' _ (ftBoundsStep_isOk F coord.name z _ hinv) (parseX bft)
+        · rename_i _ bn _ _ bv _ _ bft _
+          obtain ⟨r2, hr2⟩ := foldlM_isOk' _ (ftBoundsStep_isOk F coord.name bn z _ hinv) (parseX bft)
             ([], if (parseX bft).isEmpty = true then
-                (List.foldl (ftStep F coord.name) ([], []) (parseX ft)).2 ++ [⟨coord.name, "formula_terms"⟩]
+                (List.foldl (ftStep F coord.name) ([], []) (parseX ft)).2 ++
+                  [mkMsgC coord.name bn coord.name "formula_terms" "Bounds formula_terms attribute is incorrectly formatted"]
               else (List.foldl (ftStep F coord.name) ([], []) (parseX ft)).2)
           simp only [hr2]
           exact ⟨_, rfl, hinv⟩
@@ -552,10 +555,10 @@ theorem checkFormulaTerms_ok (F : NcFile) (P : Pre) (coord : NcVar) (ft z : Stri
           simp only [hr2]
           exact ⟨_, rfl, hinv⟩
 
-theorem ftTermStep_isOk (F : NcFile) (P : Pre) (v : String) (D : List String) (bterms : Terms)
+theorem ftTermStep_isOk (F : NcFile) (P : Pre) (v cn : String) (D : List String) (bterms : Terms)
     (acc : FSt × List (String × Option String) × Bool) (t : String × Option String)
     (ht : ∀ n, t.2 = some n → F.hasVar n = true) :
-    IsOk (ftTermStep patched F P v D bterms acc t) := by
+    IsOk (ftTermStep patched F P v cn D bterms acc t) := by
   unfold ftTermStep
   split
   · exact ⟨_, rfl⟩
@@ -604,7 +607,7 @@ theorem ftCoordStep_isOk (F : NcFile) (P : Pre) (v : String) (D : List String) (
       · rename_i e he
         exfalso
         obtain ⟨r, hr⟩ := foldlM_isOk _ (fun t => ∀ n, t.2 = some n → F.hasVar n = true)
-          (fun acc t ht => ftTermStep_isOk F P v D chk.2.1 acc t ht) chk.1 _ (fun t ht => hterms t ht)
+          (fun acc t ht => ftTermStep_isOk F P v cn D chk.2.1 acc t ht) chk.1 _ (fun t ht => hterms t ht)
         rw [hr] at he
         cases he
       · split <;> exact ⟨_, rfl⟩
@@ -857,12 +860,14 @@ def ancOk (F : NcFile) (P : Pre) (D : List String) (n : String) : Bool :=
   | none => false
   | some nv => dimsSubset patched nv (applyComp P.comp (rawDims nv)) D
 
-def ancMsgs (F : NcFile) (P : Pre) (D : List String) (n : String) : List Msg :=
-  if ancOk F P D n then [] else [⟨n, "ancillary_variables"⟩]
+/-- The message of one entry: it names the entry's variable `n` under the attribute of the parent `v`,
+and says whether the variable is missing or spans foreign dimensions. -/
+def ancMsgs (F : NcFile) (P : Pre) (v : String) (D : List String) (n : String) : List Msg :=
+  if ancOk F P D n then [] else [if F.hasVar n then ancForeign v n else ancMissing v n]
 
 theorem checkAncillary_entry (F : NcFile) (P : Pre) (v : String) (D : List String) (n : String) :
-    checkAncillary patched F P v D [n] = .ok (ancOk F P D n, ancMsgs F P D n) := by
-  unfold checkAncillary ancMsgs ancOk
+    checkAncillary patched F P v D [n] = .ok (ancOk F P D n, ancMsgs F P v D n) := by
+  unfold checkAncillary ancMsgs ancOk NcFile.hasVar
   simp only [List.isEmpty_cons, Bool.false_eq_true, ↓reduceIte, checkAncillaryGo]
   cases hv : F.var? n with
   | none => simp
@@ -880,14 +885,14 @@ namespace Cfdm.RefCheck
 
 theorem auxToken_missing (F : NcFile) (P : Pre) (v : String) (D : List String) (s : FSt) (tok : String)
     (hD : D.contains tok = false) (hv : F.var? tok = none) :
-    auxToken patched F P v D s tok = .ok (s.add [] [⟨tok, "coordinates"⟩, ⟨tok, "coordinates"⟩]) := by
+    auxToken patched F P v D s tok = .ok (s.add [] [coordMissing v tok, coordMissing v tok]) := by
   unfold auxToken
   simp only [hD, Bool.false_eq_true, ↓reduceIte, hv]
 
 theorem auxToken_foreign (F : NcFile) (P : Pre) (v : String) (D : List String) (s : FSt) (tok : String) (cv : NcVar)
     (hD : D.contains tok = false) (hv : F.var? tok = some cv)
     (hf : (applyComp P.comp (rawDims cv)).all D.contains = false) :
-    auxToken patched F P v D s tok = .ok (s.add [] [⟨tok, "coordinates"⟩]) := by
+    auxToken patched F P v D s tok = .ok (s.add [] [coordForeign v tok]) := by
   unfold auxToken
   simp only [hD, Bool.false_eq_true, ↓reduceIte, hv, ncdims_of_var P hv, bind, Except.bind, dimsSubset_patched, hf,
     Bool.not_false, pure, Except.pure]
